@@ -18,13 +18,6 @@ theorem mode_shaped_arr (k : String) (xs : List Val)
     | rfl | rfl | rfl | rfl | rfl | rfl <;>
   simp [mode, dateOps, datePartOps, wholeOps, unaryArithOps, groupingOps]
 
-/-- what `strictReasons = []` says for an arithmetic operator -/
-theorem arith_reasons (k : String) (hin : arithOps.contains k = true) (vs : List (Option Val))
-    (hr : strictReasons k vs = []) : vs.any isBoolO = false := by
-  unfold strictReasons at hr
-  rw [if_pos hin] at hr
-  simpa [ite_nil] using hr
-
 /-- `$add`, `$multiply` -/
 theorem nary_case (c : Ctx) (hign : c.ign = true) (k : String) (hk : k = "$add" ∨ k = "$multiply")
     (xs : List Val) (vs : List (Option Val)) (h1 : xs.map (eval c) = vs.map .ok)
@@ -67,12 +60,7 @@ theorem binary_case (c : Ctx) (hign : c.ign = true) (k : String)
     | error e => simp [h2, Except.map] at hs'
     | ok w =>
       simp [h2, Except.map] at hs'; subst hs'
-      have hin : arithOps.contains k = true := by rcases hk with rfl | rfl | rfl | rfl <;> decide
-      have rb := arith_reasons k hin [a, b] hr
-      have hbb : isBoolO b = false := by
-        simp only [List.any_cons, List.any_nil, Bool.or_false, Bool.or_eq_false_iff] at rb
-        exact rb.2
-      have hp := binary_pure k hk a b hbb w h2
+      have hp := binary_pure k hk a b w h2
       have hlen : xs.length = 2 := by simpa using congrArg List.length h1
       have hcls : classify k = .arith := by rcases hk with rfl | rfl | rfl | rfl <;> decide
       have hm : mode k (.arr xs) = .shaped :=
@@ -119,8 +107,11 @@ theorem eval_cmp (c : Ctx) (k : String)
   have hifn : ¬ k = "$ifNull" := by rcases hk with rfl | rfl | rfl | rfl | rfl | rfl <;> decide
   have hsize : ¬ k = "$size" := by rcases hk with rfl | rfl | rfl | rfl | rfl | rfl <;> decide
   have hslice : ¬ k = "$slice" := by rcases hk with rfl | rfl | rfl | rfl | rfl | rfl <;> decide
-  simp only [eval, List.length_singleton, Nat.lt_irrefl, decide_false, Bool.false_and,
-    Bool.false_eq_true, if_false, evalDoc, hcls, hm, evalOp, har, List.contains_eq_mem, hl, hcmp,
+  have hu : unaryListOps.contains k = false := by
+    rcases hk with rfl | rfl | rfl | rfl | rfl | rfl <;> decide
+  rw [eval_shaped c k _ (by rw [hcls]; simp) (by rw [hcls]; simp) (by rw [hcls]; simp) hu
+    (Or.inr rfl) hm]
+  simp only [evalOp, har, List.contains_eq_mem, hl, hcmp,
     decide_false, decide_true, hand, hor, hcond, hifn, hsize, hslice, if_true, bind, Except.bind]
   cases evalAll c xs with
   | error e => rfl
